@@ -640,12 +640,13 @@ func (x *exec) frameExclusions(u *Unit) []frameExcl {
 				ex = append(ex, frameExcl{prefix: key, ref: idx, whole: true})
 				return
 			}
-			p := x.ptrOf(base)
+			_ = base
+			p := pre.lvalPtr(m)
 			if p.Kind != PtrHeap {
 				return
 			}
 			pre2, _ := e.followPath(p.Root, p.Path)
-			ex = append(ex, frameExcl{prefix: objKeyPrefix(p.Root) + pre2 + "." + m.Name, ref: p.Base, whole: true})
+			ex = append(ex, frameExcl{prefix: objKeyPrefix(p.Root) + pre2, ref: p.Base, whole: true})
 		case *spec.Call:
 			id, _ := m.Fun.(*spec.Ident)
 			if id != nil && id.Name == "Mem" {
